@@ -325,6 +325,18 @@ Definition c02_judge (c : wg_case) : nat :=
     else 2%nat
   else 0%nat.
 
+(* C02's statement carries no side condition on the sign of the count (C02_rest, C02_monitor hold
+   for every program): the same judgement without the in_domain gate.  Used for the schedules with
+   negative excursions that are searched after a tie / obligation broke (the scheduler then lets
+   decrements overtake the increments covering them). *)
+Definition c02_judge_unc (c : wg_case) : nat :=
+  if obs_wf c then verdict (c02_ok (obs_trace c) && tmo_ok c && probes_ok c)
+                           (model_eq c && tmo_model c)
+  else 2%nat.
+Definition c02_trace_judge_unc (c : wg_case) : nat :=
+  if obs_wf c then (if c02_ok (obs_trace c) && tmo_ok c && probes_ok c then 0%nat else 1%nat)
+  else 2%nat.
+
 (* the same against the model of the pinned two-word algorithm (development aid: shows that
    the [_orig] machine, about which the refutation theorems speak, is the pinned code) *)
 Definition c01_judge_orig (c : wg_case) : nat :=
